@@ -1,11 +1,12 @@
 """Execute the real wpull ConnectionPool / HostPool under the virtual loop with an environment script.
 
 N client tasks use one real ConnectionPool over H host keys (per-host limit M, global limit max_count).  All
-nondeterminism comes from the environment script; the pool, HostPool, HappyEyeballsConnection, asyncio.Lock and
+nondeterminism comes from the environment; the pool, HostPool, HappyEyeballsConnection, asyncio.Lock and
 asyncio.Condition are the real code.  Observation is done from OUTSIDE: the clients call the public coroutines and
-log around them, the connection factory / resolver are doubles, and after every event the pool is projected to
+log around them, release() is wrapped in a subclass to see when a no_wait_release task is over, the connection
+factory / resolver are doubles, and after every event the pool is projected to
     p[k] = {pr: pool present, rd: idle connection ids, bz: checked-out ids, w: _host_pool_waiters, lk: pool lock held}
-    dd   = ids of pooled connections whose closed() is true,   gl = _host_pools_lock held.
+    dd   = ids of pooled / held connections whose closed() is true,   gl = _host_pools_lock held.
 
 Environment commands (the only nondeterminism):
   ['start', c, k]         client c calls pool.acquire(host k)
@@ -13,14 +14,15 @@ Environment commands (the only nondeterminism):
   ['kill', x]             the remote end closes connection x (idle or checked out)
   ['fin', c, mode, cl]    client c gives its connection back: mode 'a' = yield from pool.release(), 'n' =
                           pool.no_wait_release(); cl=1: it closes the connection first (session abort)
-  ['cancel', c]           the task of client c is cancelled (only offered while c is inside acquire()/release())
-  ['go']                  let the event loop run (commands before a 'go' are delivered in the same loop iteration)
+  ['cancel', c]           the task of client c is cancelled (only while c is inside acquire() / release())
+separators in scripts:  ['go'] run the loop until it has nothing left to do;  ['tick'] run ONE loop iteration
+(commands between two separators are delivered together, in order).
 
 Events logged (each with the projection after it): start, got, acqx, connect, kill, rel, reld, relx, rtask, cancel,
-quiet (the loop has nothing left to run), end (final quiescence).
+quiet (the loop has nothing left to run), end (final quiescence), crash.
+Every run records its exact schedule [(loop iteration, phase, command)]; Run(replay=schedule) repeats it.
 """
 import asyncio
-import os
 import signal
 import socket
 
@@ -49,7 +51,6 @@ class SimpleConn(object):
         self.proxied = False
         self.tunneled = False
         self.ssl = False
-        self.fail_next = False
 
     def closed(self):
         return not self.open
@@ -69,6 +70,9 @@ class SimpleConn(object):
         return None
         yield  # pragma: no cover
 
+    def remote_close(self):
+        self.open = False
+
 
 class SimpleResolver(object):
     @asyncio.coroutine
@@ -84,16 +88,26 @@ def host_of(k):
 
 class Run(object):
     watchdog_s = 2.0
+    DEFAULTS = dict(c=0, k=0, x=0, ok=False, mode='', cl=False, r=0, st='', why='')
 
-    def __init__(self, N, H, M, maxcount=100, script=(), uses=2, fallback=True, timed=None, max_steps=4000):
+    def __init__(self, N, H, M, maxcount=100, script=(), uses=2, fallback=True, timed=None, replay=None,
+                 max_steps=4000):
         self.N, self.H, self.M, self.maxcount, self.uses = N, H, M, maxcount, uses
         self.script = [list(e) for e in script]
+        self.wait = 'go'
         self.fallback = fallback
-        self.timed = dict(timed or {})
+        self.timed = {int(k): v for k, v in (timed or {}).items()}
+        self.replay = None
+        if replay is not None:
+            self.replay = {}
+            for (tk, ph, e) in replay:
+                self.replay.setdefault((int(tk), ph), []).append(list(e))
         self.ev = []
         self.fired = []
+        self.schedule = []
         self.frozen = False
-        self.chooser = None
+        self.chooser = None        # chooser(run, fired_in_batch) -> command | ['go'] | None   (at quiescent points)
+        self.tick_chooser = None   # tick_chooser(run) -> command | None                        (before each iteration)
         self.ticks = 0
         self.steps = 0
         self.max_steps = max_steps
@@ -106,16 +120,15 @@ class Run(object):
         self.tasks = {}
         self.wake = {}
         self.rel_tasks = {}     # r -> (task, connection)
-        self.nrel = 0
         self.rel_of = {}
         self.rel_x = {}
         self.rel_ended = set()
+        self.nrel = 0
         self.n_cancel = self.n_kill = self.n_fail = 0
         self.dirty = True
-        self.last_quiet = None
-        self.batch_open = False
         self.outcome = None
         self.timed_fired = []
+        self.exhausted = False
 
     # ------------------------------------------------------------------ projection
     def keyt(self, k):
@@ -154,7 +167,6 @@ class Run(object):
             if hp is None:
                 ps.append({'pr': False, 'rd': [], 'bz': [], 'w': 0, 'lk': False, 'wneg': False})
                 continue
-            # ids in a deterministic order: busy first (older), then ready
             bz = sorted(self.cid(x) for x in hp.busy)
             rd = sorted(self.cid(x) for x in hp.ready)
             for x in tuple(hp.ready) + tuple(hp.busy):
@@ -169,8 +181,6 @@ class Run(object):
         gl = bool(getattr(getattr(pool, '_host_pools_lock', None), 'locked', lambda: False)())
         return {'p': ps, 'dd': sorted(dead), 'gl': gl}
 
-    DEFAULTS = dict(c=0, k=0, x=0, ok=False, mode='', cl=False, r=0, st='', why='')
-
     def log(self, **kw):
         if self.frozen:
             return
@@ -181,8 +191,16 @@ class Run(object):
         self.dirty = True
 
     # ------------------------------------------------------------------ the system under test + clients
+    def make_pool(self, cls):
+        run = self
+        return cls(max_host_count=self.M, resolver=SimpleResolver(),
+                   connection_factory=lambda address, hostname=None, **kw: SimpleConn(run, address, hostname),
+                   ssl_connection_factory=lambda address, hostname=None, **kw: SimpleConn(run, address, hostname),
+                   max_count=self.maxcount)
+
     def build(self):
         run = self
+
         class TP(ConnectionPool):
             """Observation only: tells when a no_wait_release task is over (release() is the task's coroutine)."""
             @asyncio.coroutine
@@ -198,15 +216,19 @@ class Run(object):
                     raise
                 run._rtask_end(r, 'done')
 
-        self.pool = TP(max_host_count=self.M, resolver=SimpleResolver(),
-                                   connection_factory=lambda address, hostname=None, **kw: SimpleConn(run, address, hostname),
-                                   ssl_connection_factory=lambda address, hostname=None, **kw: SimpleConn(run, address, hostname),
-                                   max_count=self.maxcount)
+        self.pool = self.make_pool(TP)
 
     def _wait_cmd(self, c):
         fut = asyncio.get_event_loop().create_future()
         self.wake[c] = fut
         return fut
+
+    def track_release_task(self, r, x, conn, before):
+        new = [t for t in self.pool._release_tasks if t not in before]
+        task = new[0] if new else None
+        if task is not None:
+            self.rel_tasks[r] = (task, conn)
+            task.add_done_callback(lambda t, r=r: self._rtask_done(r, t))
 
     @asyncio.coroutine
     def client(self, c):
@@ -262,11 +284,7 @@ class Run(object):
                 self.rel_of[id(conn)] = r
                 self.rel_x[r] = x
                 pool.no_wait_release(conn)
-                new = [t for t in pool._release_tasks if t not in before]
-                task = new[0] if new else None
-                if task is not None:
-                    self.rel_tasks[r] = (task, conn)
-                    task.add_done_callback(lambda t, r=r: self._rtask_done(r, t))
+                self.track_release_task(r, x, conn, before)
                 self.state[c] = 'idle' if self.nuse[c] < self.uses else 'done'
                 self.log(e='rel', c=c, x=x, mode='n', cl=cl, r=r)
             else:
@@ -319,19 +337,18 @@ class Run(object):
         if k == 'cancel':
             c = e[1]
             return self.state.get(c) in ('acq', 'rel') and not self.tasks[c].done()
-        if k == 'go':
-            return True
         return False
 
     def _waiting(self, c):
         f = self.wake.get(c)
         return f is not None and not f.done()
 
-    def fire(self, e):
+    def fire(self, e, phase='Q'):
         k = e[0]
         if not self.enabled(e):
             return False
         self.fired.append(list(e))
+        self.schedule.append([self.ticks, phase, list(e)])
         if k in ('start', 'connect', 'fin'):
             if k == 'connect' and not e[2]:
                 self.n_fail += 1
@@ -342,7 +359,7 @@ class Run(object):
             # the remote end closes: the innermost connection reports closed() from now on
             inner = getattr(conn, '_active_connection', None)
             if inner is not None:
-                inner.open = False
+                inner.remote_close()
             self.log(e='kill', x=e[1])
         elif k == 'cancel':
             self.n_cancel += 1
@@ -351,7 +368,7 @@ class Run(object):
         return True
 
     def enabled_list(self, b):
-        """All environment commands enabled now.  b: budgets dict(cancel, kill, fail, close, modes)."""
+        """All environment commands enabled now.  b: budgets dict(cancel, kill, fail, close, modes, keys)."""
         out = []
         for c in range(1, self.N + 1):
             st = self.state[c]
@@ -361,12 +378,13 @@ class Run(object):
                         out.append(['start', c, k])
             elif st == 'use' and self._waiting(c):
                 if self.conn_of[c].closed():
-                    out.append(['connect', c, 1])
+                    if b.get('connect', 1):
+                        out.append(['connect', c, 1])
                     if b.get('fail', 0) > self.n_fail:
                         out.append(['connect', c, 0])
                 for mode in b.get('modes', 'n'):
                     out.append(['fin', c, mode, 0])
-                    if b.get('close', 0):
+                    if b.get('close', 0) and not self.conn_of[c].closed():
                         out.append(['fin', c, mode, 1])
             elif st in ('acq', 'rel') and b.get('cancel', 0) > self.n_cancel and not self.tasks[c].done():
                 out.append(['cancel', c])
@@ -376,42 +394,69 @@ class Run(object):
                     out.append(['kill', i])
         return out
 
+    def _next_batch(self):
+        cmds = []
+        sep = 'go'
+        while self.script:
+            e = self.script.pop(0)
+            if e[0] in ('go', 'tick'):
+                sep = e[0]
+                if cmds:
+                    break
+                continue
+            cmds.append(e)
+        return cmds, sep
+
     def tick(self):
         self.ticks += 1
+        if self.replay is not None:
+            for e in self.replay.get((self.ticks, 'T'), []):
+                self.fire(e, 'T')
+            return
         for e in self.timed.pop(self.ticks, []):
-            if self.fire(list(e)):
+            if self.fire(list(e), 'T'):
                 self.timed_fired.append((self.ticks, list(e)))
-
-    def busy_clients(self):
-        return [c for c in self.state if self.state[c] in ('acq', 'use', 'rel')]
+        if self.tick_chooser is not None and self.ticks > 1:
+            e = self.tick_chooser(self)
+            if e is not None:
+                self.fire(e, 'T')
+        elif self.wait == 'tick' and self.script:
+            cmds, self.wait = self._next_batch()
+            for e in cmds:
+                self.fire(e, 'T')
 
     def env_step(self):
         self.steps += 1
         if self.steps > self.max_steps:
             return False
         if self.dirty:
-            self.dirty = False
             self.log(e='quiet')
             self.dirty = False
         fired = False
-        if self.chooser is not None:
+        if self.replay is not None:
+            for e in self.replay.get((self.ticks, 'Q'), []):
+                if self.fire(e, 'Q'):
+                    fired = True
+            return fired
+        if self.chooser is not None and not self.exhausted:
             while True:
                 e = self.chooser(self, fired)
-                if e is None or e[0] == 'go':
+                if e is None:
+                    if not fired:
+                        self.exhausted = True
+                    break
+                if e[0] == 'go':
                     break
                 if self.fire(e):
                     fired = True
             if fired:
                 return True
         else:
-            while self.script:
-                e = self.script.pop(0)
-                if e[0] == 'go':
-                    if fired:
-                        break
-                    continue
-                if self.fire(e):
-                    fired = True
+            while self.script and not fired:
+                cmds, self.wait = self._next_batch()
+                for e in cmds:
+                    if self.fire(e):
+                        fired = True
             if fired:
                 return True
         # script / chooser exhausted: wind the run down (everybody gives back what he holds)
@@ -425,8 +470,8 @@ class Run(object):
     def finish(self):
         stuck = sorted(c for c in self.state if self.state[c] in ('acq', 'rel'))
         pend = sorted(r for r, (t, x) in self.rel_tasks.items() if not t.done())
-        self.dirty = False
         self.log(e='end', stuck=stuck, pending=pend)
+        self.dirty = False
 
     @asyncio.coroutine
     def main(self):
@@ -442,8 +487,7 @@ class Run(object):
         signal.setitimer(signal.ITIMER_VIRTUAL, self.watchdog_s)
         try:
             try:
-                kind, val = vloop.run(self.main, self.env_step, tick_hook=self.tick,
-                                      before_cleanup=self._end)
+                kind, val = vloop.run(self.main, self.env_step, tick_hook=self.tick, before_cleanup=self._end)
             except Livelock:
                 kind, val = 'livelock', None
         finally:
@@ -452,9 +496,10 @@ class Run(object):
         self.outcome = kind
         if kind != 'hang':
             # main() never returns by itself: anything else than quiescence is a failure of the code under test
-            self.frozen = False
-            self.ev.append(dict(e='crash', kind=kind, detail=repr(val)[:200], **self.ev[-1:] and
-                                {k: self.ev[-1][k] for k in ('p', 'dd', 'gl')} or {}))
+            last = self.ev[-1] if self.ev else {'p': [], 'dd': [], 'gl': False}
+            e = dict(self.DEFAULTS)
+            e.update(e='crash', kind=kind, detail=repr(val)[:200], p=last['p'], dd=last['dd'], gl=last['gl'])
+            self.ev.append(e)
         return self.ev
 
     def _end(self):
@@ -463,6 +508,15 @@ class Run(object):
                 self.finish()
             finally:
                 self.frozen = True
+
+    def max_conn(self):
+        m = 0
+        for e in self.ev:
+            m = max([m, e['x']] + e['dd'] + [x for q in e['p'] for x in q['rd'] + q['bz']])
+        return m
+
+    def max_rel(self):
+        return max([0] + [e['r'] for e in self.ev])
 
 
 def run_script(N, H, M, script, **kw):
